@@ -2,7 +2,39 @@ HOOK_COMMITS = ["74bf6ff"]
 
 ALL = ["C%02d" % i for i in range(1, 21)]
 
+SEQ_NOTE = ("Trusted: Coq kernel; extraction (ExtrOcamlBasic); OCaml replayer; Go harness. Modelled, not verified: the hash table as an "
+            "atomic map (C15), eviction/expiry policy choices (inputs, C04/C05/C07/C13), gob, the executor. Hypotheses of the theorems: cfg_ok "
+            "(creation durations positive and independent of the current duration; durations fit int64), clock in [0, MaxInt64), non-decreasing clock. "
+            "The tie model<->code is differential testing over generated operation sequences in all 12 feature combinations.")
+SEQ_TECH = "Coq refinement proof (congruence of the concrete step w.r.t. live contents, induction over runs) + model/implementation correspondence replay"
+
 TEXTS = {
+    "C01": dict(text="Coq theorem: the concrete sequential model of cache_impl.go (expired nodes physically present, all 20 operations incl. loads, "
+                     "bulk loads, refresh tasks, iteration, automatic removals as reported events) refines the abstract map-with-deadlines for every "
+                     "configuration, calculator table, operation sequence and non-decreasing clock (C01_refines); maintenance timing cannot influence any "
+                     "result (step congruence). Tied to /repo by replaying every operation of generated histories on the extracted model and the abstract map "
+                     "and comparing results, events, callbacks, per-key entries, size and statistics after every operation.",
+               design_ref="DESIGN.md section 5, C01", note=SEQ_NOTE, technique=SEQ_TECH),
+    "C03": dict(text="Coq theorem C03_dead_unobservable: for every operation, a state holding an expired-but-unswept node behaves exactly like the state "
+                     "without it (results, callbacks, submissions, visible events, statistics, live contents). Correspondence as for C01, with the generator "
+                     "biased towards operations on expired-unswept keys (counted in the evidence).",
+               design_ref="DESIGN.md section 5, C03", note=SEQ_NOTE, technique=SEQ_TECH),
+    "C10": dict(text="Coq theorems on the model's load paths: outcome table for Get (value/error/not-found/panic) and the exact result domain of BulkGet "
+                     "(hits ++ supplied misses, each distinct key once, loader invoked once with exactly the distinct misses); transferred to every history by C01_refines. "
+                     "Correspondence: table-driven single and bulk loaders (full/partial/extra/empty/error/panic) replayed on the model.",
+               design_ref="DESIGN.md section 5, C10", note=SEQ_NOTE, technique=SEQ_TECH),
+    "C11": dict(text="Coq theorems: a read of a stale entry returns the cached value and submits exactly one reload carrying it, fresh entries submit nothing; "
+                     "reload success replaces (old value reported replaced), failure keeps value/weight/expiry, not-found removes; Refresh returns a channel iff "
+                     "refresh is configured. Harness additionally checks one result per explicit Refresh/BulkRefresh channel at quiescence.",
+               design_ref="DESIGN.md section 5, C11", note=SEQ_NOTE + " In-flight and dedup behaviour is the protocol model of C08/C09.", technique=SEQ_TECH),
+    "C12": dict(text="Coq theorems: deadline = SaturatedAdd(now, duration) after create/update/read/SetExpiresAfter for every duration in [1, MaxInt64]; "
+                     "never in the past, never wraps, MaxInt64 pins; visibility iff now < expiration. Correspondence compares both deadlines of every key after every operation "
+                     "with durations up to MaxInt64 and clock origins up to 1.8e18.",
+               design_ref="DESIGN.md section 5, C12", note=SEQ_NOTE, technique="Coq proof (int64 wrap-around modelled explicitly) + correspondence replay"),
+    "C20": dict(text="Coq theorems on ghost counters placed where the code calls the recorder: each counting lookup adds exactly one to hits+misses and is a hit iff an "
+                     "unexpired entry was found; each loader invocation adds exactly one to successes+failures; evictions counted exactly at automatic removals; quiet operations change nothing. "
+                     "Correspondence compares the Stats() snapshot after every operation.",
+               design_ref="DESIGN.md section 5, C20", note=SEQ_NOTE + " Concurrent histories: see C02 (counters are sums of per-action increments).", technique=SEQ_TECH),
     "C18": dict(
         text="Coq theorems over an executable transcription of sketch.go / policy.admit / RoundUpPowerOf264 on 64-bit words: "
              "for every raw key hash, every table length 8*2^k and every recording sequence inside a sampling period the estimate is "
